@@ -110,6 +110,9 @@ func (g *gen) strLit(t *rapid.T, callArg bool) Expr {
 		}
 		lits = l
 	}
+	if rapid.IntRange(0, 4).Draw(t, "blanklit") == 0 {
+		lits = blankLits // blanks inside the quotes are part of the text
+	}
 	return Expr{K: "str", V: pick(t, "strlit", lits), Q: pick(t, "quote", []string{"d", "s"})}
 }
 
@@ -199,7 +202,7 @@ func (g *gen) callExpr(t *rapid.T, typ string, nonShared, top bool) Expr {
 	for _, pt := range c[1:] {
 		switch pt {
 		case "numstr":
-			e.A = append(e.A, Expr{K: "path", V: "num"})
+			e.A = append(e.A, Expr{K: "path", V: pick(t, "numstr", append([]string{"num"}, zeroLedStrs...))})
 		case "fracfloat": // fractional in every environment (the text of 10.0 is ambiguous)
 			if rapid.IntRange(0, 2).Draw(t, "fraclit") == 0 {
 				e.A = append(e.A, Expr{K: "float", V: pick(t, "fracl", []string{"0.5", "1.5", "2.5", "0.25"})})
@@ -285,7 +288,17 @@ func (g *gen) expr(t *rapid.T, env map[string]any, typ string, d int, top bool) 
 		return bin("+", sub("string"), sub("string"))
 	}
 	// bool
-	switch rapid.IntRange(0, 9).Draw(t, "boolprod") {
+	switch rapid.IntRange(0, 10).Draw(t, "boolprod") {
+	case 10:
+		// a string with blanks against a literal spelled with the same or different blanks
+		l := Expr{K: "path", V: pick(t, "blankpath", blankPaths)}
+		r := Expr{K: "str", V: pick(t, "blanklit", blankLits), Q: pick(t, "quote", []string{"d", "s"})}
+		if rapid.IntRange(0, 1).Draw(t, "hit") == 0 {
+			if v, ok := env[l.V].(string); ok {
+				r.V = v // the literal that equals the value
+			}
+		}
+		return bin(pick(t, "beq", []string{"==", "!=", "==", "<="}), l, r)
 	case 0, 1:
 		return bin(pick(t, "lop", []string{"&&", "||"}), sub("bool"), sub("bool"))
 	case 2:
@@ -402,6 +415,7 @@ func (g *gen) genExprCase(t *rapid.T) Case {
 var pipeInits = []string{
 	"a", "b", "z", "n", "m.k", "xs[1]", "st.Age", "us[1].age", "big",
 	"f", "g", "zf", "m.rate", "fs[0]", "st.Score",
+	"z10", "z08", "z007", "z0s", "sp", "sp2", "spl", "spt",
 	"s", "h", "e", "num", "pad", "m.name", `m["name"]`, `m['name']`, "m.inner.s", "ss[0]", "st.Name", "st.In.S", "us[0].name",
 	"t", "u", "m.ok", "bs[0]", "st.Ok",
 	"xs", "ss", "fs", "m", "m.inner", "st", "nope",
@@ -415,7 +429,8 @@ var (
 	litParen = []string{"(c)", "f(x)", "a) b (c"}
 	litSpace = []string{"two words", "a b c"}
 	litPad   = []string{" x ", "  lead", "trail "}
-	litNum   = []string{"42", "7", "-3"}
+	litNum   = []string{"42", "7", "-3", "010", "08", "007", "0"} // decimal text: leading zeros stay decimal
+	litUNum  = []string{"42", "7", "010", "08", "007", "0"}
 	litFloat = []string{"2.5", "0.25"}
 )
 
@@ -455,6 +470,8 @@ func (g *gen) quoted(t *rapid.T, classes ...string) Arg {
 		v = pick(t, "oq", oq)
 	case "num":
 		v = pick(t, "num", litNum)
+	case "unum":
+		v = pick(t, "unum", litUNum)
 	case "float":
 		v = pick(t, "fnum", litFloat)
 	}
@@ -485,9 +502,20 @@ func (g *gen) argFor(t *rapid.T, pt string) Arg {
 		case 2:
 			return g.quoted(t, "num")
 		case 3:
-			return Arg{K: "path", V: pick(t, "numpath", []string{"num", "big"})}
+			return Arg{K: "path", V: pick(t, "numpath", append([]string{"num", "big"}, zeroLedStrs...))}
 		default:
 			return Arg{K: "path", V: pick(t, "ipath", intPaths)}
+		}
+	case "uint":
+		switch rapid.IntRange(0, 4).Draw(t, "usrc") {
+		case 0:
+			return Arg{K: "int", V: pick(t, "ulit", posIntLits)}
+		case 1, 2:
+			return g.quoted(t, "unum")
+		case 3:
+			return Arg{K: "path", V: pick(t, "unumpath", append([]string{"num", "big"}, zeroLedStrs...))}
+		default:
+			return Arg{K: "path", V: pick(t, "upath", []string{"a", "b", "z", "xs[0]", "st.Age"})}
 		}
 	case "float64":
 		switch rapid.IntRange(0, 5).Draw(t, "fsrc") {
@@ -498,7 +526,7 @@ func (g *gen) argFor(t *rapid.T, pt string) Arg {
 		case 2:
 			return g.quoted(t, "float", "num")
 		case 3:
-			return Arg{K: "path", V: pick(t, "npath", []string{"num", "a", "big"})}
+			return Arg{K: "path", V: pick(t, "npath", append([]string{"num", "a", "big"}, zeroLedStrs...))}
 		default:
 			return Arg{K: "path", V: pick(t, "fpath", g.argPaths(floatPaths, true))}
 		}
@@ -680,17 +708,38 @@ func (g *gen) genErrCase(t *rapid.T) Case {
 			bad.A = append(bad.A, g.argFor(t, f.params[min(i+1, len(f.params)-1)]))
 		}
 	case "conversion":
-		// piped container / non-numeric text into a numeric or bool parameter, or such an argument
-		numeric := []string{"add", "isBig", "dbl64", "half", "scale", "sum", "failif", "ctxadd"}
+		// a container, a non-numeric text or a text that is not a DECIMAL number ("0x10", "1_000",
+		// " 42", "") piped or passed into a numeric / bool parameter; the sources are filtered by
+		// the model so that only conversions nothing accepts today are required to fail
+		numeric := []string{"add", "isBig", "dbl64", "udbl", "half", "scale", "sum", "failif", "ctxadd"}
 		f := funcs[pick(t, "cfn", numeric)]
 		bad = Stage{F: f.name}
 		argBad := len(f.params) > 1 && rapid.IntRange(0, 2).Draw(t, "argbad") == 0
+		badFor := func(pt string) []Arg {
+			var out []Arg
+			for _, p := range append(append(append([]string{"xs", "ss", "fs", "m", "m.inner"}, alphaStringPaths...), badNumPaths...), badNumPaths...) {
+				v, _ := resolve(env, p)
+				if _, st := convert(v, pt); st == convImpossible {
+					out = append(out, Arg{K: "path", V: p})
+				}
+			}
+			for _, l := range badNumLits {
+				if _, st := convert(l, pt); st == convImpossible {
+					out = append(out, Arg{K: "str", V: l, Q: "d"}, Arg{K: "str", V: l, Q: "s"})
+				}
+			}
+			return out
+		}
 		if argBad {
-			init = pick(t, "okinit", []string{"a", "b", "m.k", "num"})
-		} else if rapid.IntRange(0, 1).Draw(t, "container") == 0 {
-			init = pick(t, "cinit", []string{"xs", "ss", "fs", "m", "m.inner"})
+			init = pick(t, "okinit", []string{"a", "b", "m.k", "num", "z10"})
 		} else {
-			init = pick(t, "sinit", alphaStringPaths)
+			var paths []string
+			for _, a := range badFor(f.params[0]) {
+				if a.K == "path" {
+					paths = append(paths, a.V)
+				}
+			}
+			init = pick(t, "badinit", paths)
 		}
 		for i := 1; i < len(f.params); i++ {
 			a := g.argFor(t, f.params[i])
@@ -698,10 +747,7 @@ func (g *gen) genErrCase(t *rapid.T) Case {
 				a = Arg{K: "bool", V: "false"}
 			}
 			if argBad && i == 1 {
-				a = Arg{K: "path", V: pick(t, "badarg", []string{"xs", "ss", "m", "s", "h"})}
-				if f.params[i] == "bool" {
-					a.V = pick(t, "badbool", []string{"xs", "ss", "m"}) // text -> bool is not documented either way
-				}
+				a = pick(t, "badarg", badFor(f.params[i]))
 			}
 			bad.A = append(bad.A, a)
 		}
@@ -779,6 +825,10 @@ func classify(c Case) (bool, []string) {
 				k = "A:call " + x.V
 			case "str":
 				k = "A:strlit-" + map[string]string{"d": "double", "s": "single"}[x.Q]
+				if strings.ContainsAny(x.V, " \t") && !seen["A:strlit-with-blanks"] {
+					seen["A:strlit-with-blanks"] = true
+					cls = append(cls, "A:strlit-with-blanks")
+				}
 			case "int", "float", "bool":
 				k = "A:lit-" + x.K
 			case "path":
@@ -789,6 +839,8 @@ func classify(c Case) (bool, []string) {
 					}
 				}
 				switch {
+				case contains(blankPaths, x.V):
+					k = "A:path-string-with-blanks"
 				case strings.Contains(x.V, `["`) || strings.Contains(x.V, `['`):
 					k = "A:path-bracket-key"
 				case strings.Contains(x.V, "["):
@@ -831,6 +883,9 @@ func classify(c Case) (bool, []string) {
 			add("B:fn " + s.F)
 			args := []any{cur}
 			add(fmt.Sprintf("B:pair piped %T->%s", cur, f.params[0]))
+			if cs, ok := cur.(string); ok && len(cs) > 1 && cs[0] == '0' && f.params[0] != "string" && f.params[0] != "any" {
+				add("B:piped leading-zero text->number")
+			}
 			for i, a := range s.A {
 				v := argValue(a, env)
 				args = append(args, v)
@@ -857,6 +912,9 @@ func classify(c Case) (bool, []string) {
 					}
 					if _, err := strconv.ParseFloat(a.V, 64); err == nil {
 						src += "-numeric"
+						if len(a.V) > 1 && a.V[0] == '0' {
+							add("B:lit leading-zero")
+						}
 					}
 				}
 				add(fmt.Sprintf("B:pair %s->%s", src, pt))
@@ -879,6 +937,15 @@ func classify(c Case) (bool, []string) {
 			form = "call"
 		}
 		cls = append(cls, "C:"+c.Why, "C:form="+form, fmt.Sprintf("C:stages=%d", len(c.Stages)))
+		if c.Why == "conversion" {
+			txt := c.Text()
+			for _, b := range append(append([]string{}, badNumPaths[:6]...), badNumLits[:6]...) {
+				if strings.Contains(txt, b) {
+					cls = append(cls, "C:conversion not-decimal-text")
+					break
+				}
+			}
+		}
 		return true, cls
 	}
 	return false, cls
